@@ -23,7 +23,7 @@ func TestMain(m *testing.M) {
 			"hand-built files with 0-3 levels of bytes blobs, directories with static sets, opaque blobs, optionally 1-2 withheld dependencies. Schedule: interleaving of storage arrivals S(b) and index deliveries X(b) with S(b) before X(b): "+
 			"dependency/reverse/random order x coupled/storage-first/mixed storage, duplicates, an index restart (index.New over the same rows) at a drawn point, 2-4 concurrent delivering goroutines; all permutations for worlds of <= 6 blobs. "+
 			"Oracle: after quiescence the full row dump equals the dump of dependency-order delivery and of Index.Reindex() into a fresh KV, VerifPending() equals the model's pending count, and rows computed from the harness's world model (have/meta/claim/deleted/recpn/signerkeyid/fileinfo/wholetofile/dirchild/missing, row counts per family) are present/absent as predicted. "+
-			"non-trivial = schedule in which at least one blob is delivered to the index before one of its dependencies is available (fetch dependency not yet in storage, or delete target not yet indexed), decided by simulating the schedule (for concurrent phases only within-goroutine order counts); distinct = FNV-64 of (world blob-set hash, schedule encoding)")
+			"non-trivial = schedule in which at least one blob is delivered to the index before one of its dependencies is available (fetch dependency not yet in storage, or delete target not yet delivered), decided by simulating the schedule; in a concurrent phase a delivery counts when its dependency is not made available by an earlier phase or earlier by the same goroutine (the interleaving then decides who comes first); distinct = FNV-64 of (world blob-set hash, schedule encoding)")
 }
 
 var worldCfg = vworld.Config{
@@ -407,7 +407,7 @@ func worldLabels(w *world) {
 
 func TestSchedules(t *testing.T) {
 	nSched := evid.Pick(8, 12)
-	evid.Check(t, 700, 8000, func(t *rapid.T) {
+	evid.Check(t, 500, 6000, func(t *rapid.T) {
 		w := vworld.Draw(t, worldCfg)
 		arriving := w.Arriving()
 		canon := canonical(t, w, arriving)
@@ -469,7 +469,7 @@ func permutations(in []int, fn func([]int) bool) {
 
 func TestAllPermutations(t *testing.T) {
 	maxBlobs := evid.Pick(5, 6)
-	evid.Check(t, 40, 150, func(t *rapid.T) {
+	evid.Check(t, 40, 110, func(t *rapid.T) {
 		cfg := smallCfg
 		cfg.MaxBlobs = maxBlobs
 		w := vworld.Draw(t, cfg)
